@@ -13,6 +13,12 @@ pub fn gen13(tier: &str, rng: &mut Rng) -> Vec<Spec> {
     for a in gains() { for b in gains() { for c in gains() { for xs in small_hists(if t { 5 } else { 4 }) {
         if !t && xs[0] == Rat::int(0) { continue; }
         v.push(Spec::new("expmed").with("pre", a.show()).with("mid", b.show()).with("post", c.show()).with("xs", join_rats(&xs))); } } } }
+    for _ in 0..(if t { 400 } else { 60 }) {      // f64 instantiations: dyadic gains, integers, short (every operation exact)
+        let l = rng.range(2, 9) as usize; let xs = int_hist(rng, l, 100); let g = gains();
+        v.push(Spec::new("ema").with("ty", "f64").with("pre", g[rng.below(5) as usize].show()).with("xs", join_rats(&xs)));
+        let l = rng.range(2, 5) as usize; let xs = int_hist(rng, l, 50);
+        v.push(Spec::new("expmed").with("ty", "f64").with("pre", g[rng.below(5) as usize].show()).with("mid", g[rng.below(5) as usize].show()).with("post", g[rng.below(5) as usize].show()).with("xs", join_rats(&xs)));
+    }
     for i in 0..(if t { 3000 } else { 500 }) {
         let len = rng.range(2, if t { 14 } else { 10 }) as usize; let xs = rand_hist(rng, len, 5);
         let g = |rng: &mut Rng| if rng.below(8) == 0 { Rat::new(rng.range(-3, 9) as i128, 4) } else { Rat::new(rng.range(0, 8) as i128, 8) };
@@ -24,7 +30,14 @@ pub fn gen13(tier: &str, rng: &mut Rng) -> Vec<Spec> {
 pub fn exec13(s: &Spec, stats: &mut Stats) -> Outcome {
     let xs = s.rats("xs"); stats.bump(format!("len:{}", xs.len()));
     let pre = s.rat("pre");
-    let (k, mid, post, (ys, p)) = if s.kind == "ema" {
+    let f64ty = s.has("ty") && s.get("ty") == "f64"; if f64ty { stats.bump("ty:f64"); }
+    let (k, mid, post, (ys, p)) = if f64ty && s.kind == "ema" {
+        (0, Rat::int(0), Rat::int(0), run_all(&mut ViaF64(ema::Mean::with_config(ema::Config { inverse_width: pre.to_f64() })), &xs))
+    } else if f64ty {
+        let (mid, post) = (s.rat("mid"), s.rat("post"));
+        let cfg = xmed::Config { pre: ema::Config { inverse_width: pre.to_f64() }, mid: mid.to_f64(), post: ema::Config { inverse_width: post.to_f64() } };
+        (1, mid, post, run_all(&mut ViaF64(xmed::Median::with_config(cfg)), &xs))
+    } else if s.kind == "ema" {
         (0, Rat::int(0), Rat::int(0), run_all(&mut ema::Mean::with_config(ema::Config { inverse_width: pre }), &xs))
     } else {
         let (mid, post) = (s.rat("mid"), s.rat("post"));
